@@ -40,14 +40,16 @@ class DiGraph(BaseGraph):
 
     def del_edge(self, n, m):
         """Delete a directed edge"""
-        assert n != m
         assert n in self.nodes
         assert m in self.nodes
         if self.has_edge(n, m):
             self.suc_map[n].remove(m)
             self.pre_map[m].remove(n)
-            self.adj_map[m].remove(n)
-            self.adj_map[n].remove(m)
+            # n and m stay neighbours as long as the reverse edge exists:
+            if not self.has_edge(m, n):
+                self.adj_map[m].remove(n)
+                if n is not m:
+                    self.adj_map[n].remove(m)
 
     def has_edge(self, n, m):
         """Test if there exist and edge between n and m"""
